@@ -34,6 +34,7 @@ trait CurveDyn {
     fn ipp(&self, insts: &[Value], seed: u64) -> (Vec<Value>, Vec<Value>);
     fn gens(&self, hists: &[Value]) -> Vec<Value>;
     fn gens_facts(&self, cap: usize, parties: usize) -> Value;
+    fn gens_life(&self, seed: u64, n: usize, maxcap: usize, maxparties: usize, maxops: usize) -> Vec<Value>;
     fn codec(&self, jobs: &[Value], seed: u64) -> Vec<Value>;
     fn bitflip(&self, progs: &[Program], stride: usize) -> Vec<Value>;
     fn mutate(&self, progs: &[Program], n: usize, seed: u64) -> Vec<Value>;
@@ -98,6 +99,26 @@ impl<C: Cv> CurveDyn for Dyn<C> {
     }
     fn gens_facts(&self, cap: usize, parties: usize) -> Value {
         aux::gens_facts::<C>(cap, parties)
+    }
+    fn gens_life(&self, seed: u64, n: usize, maxcap: usize, maxparties: usize, maxops: usize) -> Vec<Value> {
+        use rand::SeedableRng;
+        let mut r = rand_chacha::ChaChaRng::seed_from_u64(seed);
+        let mut events = vec![];
+        for i in 0..n {
+            // two tables per run (the model's two roles), each with its own history; no proving: table events only
+            let mut prog = Program::default();
+            prog.id = format!("life{}-{}", seed, i);
+            prog.p.label = "verif".into();
+            prog.p.gh = gen::gen_life(&mut r, maxcap, maxparties, maxops);
+            let mut v = prog.p.clone();
+            v.gh = gen::gen_life(&mut r, maxcap, maxparties, maxops);
+            prog.v = Some(v);
+            events.push(run::setup_event::<C>(&prog));
+            let _ = run::make_bp::<C>(&prog.p, "P", Some(&mut events));
+            let _ = run::make_bp::<C>(prog.vside(), "V", Some(&mut events));
+            events.push(serde_json::json!({"ev":"end","role":"","pres":"","vres":"","decode":"","sync":"na"}));
+        }
+        events
     }
     fn codec(&self, jobs: &[Value], seed: u64) -> Vec<Value> {
         let mut out = vec![];
@@ -268,6 +289,17 @@ fn main() {
             let fxs = read_json_lines(&arg(&args, "--fixtures").unwrap());
             let rows = with_curve(&curve, |c| c.fixtures(&fxs));
             write_json_lines(&arg(&args, "--out").unwrap(), &rows);
+        }
+        // genslife --curve C --seed S --n N [--maxcap K --maxparties M --maxops O] --out TRACE   (table-only traces, any curve)
+        "genslife" => {
+            let curve = arg(&args, "--curve").unwrap();
+            let seed: u64 = arg(&args, "--seed").map(|s| s.parse().unwrap()).unwrap_or(1);
+            let n: usize = arg(&args, "--n").map(|s| s.parse().unwrap()).unwrap_or(10);
+            let maxcap: usize = arg(&args, "--maxcap").map(|s| s.parse().unwrap()).unwrap_or(16);
+            let maxparties: usize = arg(&args, "--maxparties").map(|s| s.parse().unwrap()).unwrap_or(3);
+            let maxops: usize = arg(&args, "--maxops").map(|s| s.parse().unwrap()).unwrap_or(6);
+            let ev = with_curve(&curve, |c| c.gens_life(seed, n, maxcap, maxparties, maxops));
+            write_json_lines(&arg(&args, "--out").unwrap(), &ev);
         }
         // genprogs --seed S --n N --out FILE [--maxops K] [--modulus P]
         "genprogs" => {
